@@ -235,8 +235,13 @@ func vfConcExec[K Key](c *vfConcCase, mk func(i int) K, idxOf func(K) int) *vfCo
 					cache.UpdateMaxCost(c.MaxCost + op.Cost)
 				case "umcstorm":
 					// C08 only: the capacity is toggled between a tiny and the configured value while others write
+					// (op.TTL is the dwell: how many times the goroutine yields after each change, so that a value can
+					// outlast a whole admission decision of the applier instead of flipping several times inside it)
 					for j := 0; j < op.N; j++ {
 						cache.UpdateMaxCost(1 + int64(j%2)*(c.MaxCost+op.Cost))
+						for d := int64(0); d < op.TTL; d++ {
+							runtime.Gosched()
+						}
 						if j%8 == 7 {
 							runtime.Gosched()
 						}
@@ -968,6 +973,10 @@ func vfGenConcCase(t *rapid.T, p *vfConcProfile, maxG int) *vfConcCase {
 			case "umcstorm":
 				op.N = rapid.IntRange(50, 2000).Draw(t, "storm")
 				op.Cost = int64(rapid.IntRange(0, 5).Draw(t, "raise"))
+				op.TTL = rapid.SampledFrom([]int64{0, 0, 1, 2, 5, 20}).Draw(t, "dwell")
+				if op.TTL >= 5 {
+					op.N = op.N/10 + 20
+				}
 			case "yield":
 				op.N = rapid.IntRange(1, 5).Draw(t, "n")
 			case "sleep":
